@@ -651,3 +651,67 @@ def innermost_loop(fn, bb):
         body.add(b)
         stack.extend(fn.pred(b))
     return h, body
+
+
+def reach_with_flags(fn, start, avoid=frozenset(), stop=frozenset()):
+    """blocks reachable from `start` where switches on bool temporaries (the shape `matches!` / `&&` / `||` lower
+    to: `_t = const 0|1` in predecessor arms, then `switch _t`, possibly through a copy) only follow the edge
+    consistent with the literal assigned *on the path*; any other assignment to the temporary makes it unknown
+    again.  `avoid` blocks are not entered; `stop` blocks are reported but not left.
+    State = (block, frozenset of (temp, value))."""
+    def lit(rv):
+        return rv["r"] == "use" and rv["op"].get("k") == "const" and rv["op"].get("ty") == "bool" and rv["op"].get("val") is not None
+    tracked = set()
+    for i, j, pl, rv, sp in fn.assigns():
+        if len(pl) == 1 and lit(rv):
+            tracked.add(pl[0])
+    changed = True
+    while changed:  # copies of tracked temporaries are tracked too
+        changed = False
+        for i, j, pl, rv, sp in fn.assigns():
+            if len(pl) == 1 and pl[0] not in tracked and rv["r"] == "use" and rv["op"].get("k") in ("copy", "move"):
+                src = op_place(rv["op"])
+                if len(src) == 1 and src[0] in tracked:
+                    tracked.add(pl[0])
+                    changed = True
+    seen = set()
+    out = set()
+    work = [(start, frozenset())]
+    while work:
+        b, env = work.pop()
+        if (b, env) in seen or b in avoid:
+            continue
+        seen.add((b, env))
+        out.add(b)
+        if b in stop:
+            continue
+        e = dict(env)
+        for st in fn.blocks[b]["stmts"]:
+            if st["s"] != "assign" or not st["p"] or st["p"][0] not in tracked:
+                continue
+            l = st["p"][0]
+            if len(st["p"]) != 1:
+                e.pop(l, None)
+                continue
+            rv = st["rv"]
+            if lit(rv):
+                e[l] = int(rv["op"]["val"])
+            elif rv["r"] == "use" and rv["op"].get("k") in ("copy", "move") and len(op_place(rv["op"])) == 1 and op_place(rv["op"])[0] in e:
+                e[l] = e[op_place(rv["op"])[0]]
+            else:
+                e.pop(l, None)
+        t = fn.blocks[b]["term"]
+        if t["t"] == "call" and t.get("dest") and t["dest"][0] in e:
+            e.pop(t["dest"][0], None)
+        succs = fn.succ(b)
+        if t["t"] == "switch":
+            pl = op_place(t["discr"])
+            if pl is not None and len(pl) == 1 and pl[0] in e:
+                v = e[pl[0]]
+                tg = [x for val, x in t["arms"] if int(val) == v]
+                succs = tg if tg else [t["otherwise"]]
+        env2 = frozenset(e.items())
+        for s2 in succs:
+            if not fn.blocks[s2].get("cleanup"):
+                work.append((s2, env2))
+    return out
